@@ -7,7 +7,7 @@ use noodles_fasta as fasta;
 use noodles_sam as sam;
 use tokio::{
     fs::File,
-    io::{self, AsyncBufReadExt, AsyncRead, BufReader},
+    io::{self, AsyncRead, AsyncReadExt, BufReader},
 };
 
 use super::Reader;
@@ -115,25 +115,32 @@ impl Builder {
         R: AsyncRead + Unpin,
     {
         use super::Inner;
-        use crate::alignment::io::reader::builder::{detect_compression_method, detect_format};
+        use crate::alignment::io::reader::builder::{
+            DETECTION_WINDOW_SIZE, detect_compression_method, detect_format,
+        };
 
-        let mut reader = BufReader::new(reader);
+        let mut reader = reader;
+        let mut prefix = Vec::new();
+
+        // A single read can return fewer bytes than a magic number has.
+        if self.compression_method.is_none() || self.format.is_none() {
+            (&mut reader)
+                .take(DETECTION_WINDOW_SIZE as u64)
+                .read_to_end(&mut prefix)
+                .await?;
+        }
 
         let compression_method = match self.compression_method {
             Some(compression_method) => compression_method,
-            None => {
-                let mut src = reader.fill_buf().await?;
-                detect_compression_method(&mut src)?
-            }
+            None => detect_compression_method(&mut &prefix[..])?,
         };
 
         let format = match self.format {
             Some(format) => format,
-            None => {
-                let mut src = reader.fill_buf().await?;
-                detect_format(&mut src, compression_method)?
-            }
+            None => detect_format(&mut &prefix[..], compression_method)?,
         };
+
+        let reader = BufReader::new(std::io::Cursor::new(prefix).chain(reader));
 
         let inner = match (format, compression_method) {
             (Format::Sam, None) => Inner::Sam(sam::r#async::io::Reader::new(reader)),
@@ -160,3 +167,6 @@ impl Builder {
         Ok(Reader(inner))
     }
 }
+
+/// A stream whose leading bytes were read ahead.
+pub(super) type Source<R> = io::Chain<std::io::Cursor<Vec<u8>>, R>;
